@@ -188,6 +188,17 @@ func VerifyUnit(ld *Loaded, u *FuncUnit, cfg *Config) (res *UnitResult) {
 		x.obls = keep
 		x.assumed["partial contract of "+u.Pkg.Name+"."+u.Key+": only its assertions and invariants"+kindsNote(u.C.PartialKinds)+" are decided, the function's other obligations are not generated"] = true
 	}
+	if !u.C.Partial {
+		// "nilfunc" (call of a nil function value) is an opt-in kind: generated only for partial
+		// contracts that list it
+		var keep []*Obligation
+		for _, o := range x.obls {
+			if o.Kind != "nilfunc" {
+				keep = append(keep, o)
+			}
+		}
+		x.obls = keep
+	}
 	res.Obls = x.obls
 	for _, o := range res.Obls {
 		o.x = x
